@@ -498,6 +498,10 @@ def replay_file(prop, path) -> int:
 def run_property(prop: str, tier: str, seed: int, only_facets=None, scale: float = 1.0) -> int:
     t0 = time.time()
     os.environ.setdefault("PYTHONHASHSEED", "0")
+    if tier == "quick":
+        # The n_quick numbers of the facets are a 5-10 s budget (used as such by the mutant protocol);
+        # the registered quick check runs three times as many generated cases (10-35 s per property).
+        scale *= float(os.environ.get("VERIF_QUICK_SCALE", "3"))
     repo = prepare_import_path()
     try:
         assert_tree(repo)
